@@ -1,5 +1,6 @@
 """C06 Only objects meeting every documented field constraint can be written."""
 import itertools
+import json
 import os
 import shutil
 import tempfile
@@ -134,6 +135,9 @@ def apply_special(fmt, obj, name, k, desc=None):
             if borrowed:
                 v.arches = set(v.arches) | set([borrowed[k % len(borrowed)]])
                 return "%s.arches (arch of a grandparent the parent lacks)" % v.uid, 3
+            if k % 3 == 2 and "src" not in v.parent.arches:
+                v.arches = set(v.arches) | set(["src"])       # the pseudo-arch every variant matches is not an arch every variant has
+                return "%s.arches (src)" % v.uid, 2
             if k % 2:
                 v.arches.add("s390x-not-in-parent")          # in place
             else:
@@ -382,6 +386,28 @@ def table_case(case):
     return {"nontrivial": depth >= 1, "labels": [case["format"], "row" if case["corruption"]["kind"] == "row" else "special"]}
 
 
+# ---- fresh interpreters: the caller validates parts of an object first, in some order ----------------------------------------
+def fresh_cases(n):
+    for i in range(n):
+        for fmt in ("composeinfo", "treeinfo", "images"):
+            yield {"format": fmt, "seed": i}
+
+
+def fresh_case(case):
+    import subprocess
+    import sys
+    from pbt.runner import VERIF_DIR, REPO, HarnessError
+    env = dict(os.environ, PYTHONPATH=VERIF_DIR + os.pathsep + os.path.join(VERIF_DIR, ".deps"), VERIF_REPO=REPO, PYTHONHASHSEED="0", PYTHONDONTWRITEBYTECODE="1")
+    proc = subprocess.run([sys.executable, "-m", "pbt.c06_child", case["format"], str(case["seed"])], capture_output=True, text=True, env=env, cwd=VERIF_DIR, timeout=900)
+    if proc.returncode != 0:
+        raise HarnessError("C06 child failed:\n%s" % proc.stderr[-2000:])
+    res = json.loads(proc.stdout)
+    if res["findings"]:
+        f = res["findings"][0]
+        raise Violation(f["bucket"], "fresh interpreter, caller's validate() calls first (%s): %s" % (", ".join(res["order"][:6]), f["message"]))
+    return {"nontrivial": True, "labels": [case["format"], "first-validated:" + res["order"][0]], "units": ["%s#%d" % (case["format"], case["seed"])], "unit_evaluations": res["trials"]}
+
+
 # ---- converse: every documented enumeration value is writable -----------------------------------------------------------
 def enumeration_cases():
     for t in gen.COMPOSE_TYPES:
@@ -513,6 +539,7 @@ def run(ctx):
     ctx.forall("corruption", case_strategy, corruption_case, ctx.n(2400, 64000))
     ctx.sweep("table-sweep", table_cases(), table_case, exhaustive=True, stop_after=5)
     ctx.sweep("enumerations", enumeration_cases(), enumeration_case, exhaustive=True, stop_after=5)
+    ctx.sweep("caller-validates-first", fresh_cases(8 if not ctx.thorough else 64), fresh_case, stop_after=2)
 
 
-REPLAY = {"corruption": corruption_case, "table-sweep": table_case, "enumerations": enumeration_case, "subclass-instances": subclass_case}
+REPLAY = {"caller-validates-first": fresh_case, "corruption": corruption_case, "table-sweep": table_case, "enumerations": enumeration_case, "subclass-instances": subclass_case}
